@@ -155,8 +155,12 @@ fn particle(voc: &Vocab, p: &Value, ind: usize, out: &mut String) {
         Some("any") => {
             out.push_str(&format!("{pad}<xs:any processContents=\"skip\"{}/>\n", occ(p)));
         }
-        Some(k @ ("seq" | "choice")) => {
-            let tag = if k == "seq" { "sequence" } else { "choice" };
+        Some(k @ ("seq" | "choice" | "all")) => {
+            let tag = match k {
+                "seq" => "sequence",
+                "choice" => "choice",
+                _ => "all",
+            };
             out.push_str(&format!("{pad}<xs:{tag}{}>\n", occ(p)));
             for c in arr(p, "ps") {
                 particle(voc, c, ind + 2, out);
